@@ -8,6 +8,10 @@ CLAIMS = {
             "Every obligation carrying the property is generated from the current source of the folding functions and discharged by an SMT solver for all int32 operand pairs; counter-models are replayed on the real function.",
             "Trusted: pyvc's encoding of Python (DESIGN §2.1, CPython differential self-test), spec S1 (spec/arith32.py), CPython's int(text, base) for literal parsing, z3/cvc5.",
             "DESIGN §4 C11"),
+    "C16": ("other", "contract-based deductive verification (pyvc VCs with inductive loop invariants + variants on the real ForStmt.get_iteration_values) plus bounded stand-ins for the lowering plumbing",
+            "The iteration sequence is proved for all (start, stop, step) and list iterators; the per-iteration scoping in the analyzer/lowerer is checked by bounded stand-ins, labelled as such.",
+            "Trusted: pyvc encoding, composition lemma, 'IR equal up to fresh ids => same circuit'.",
+            "DESIGN §4 C16"),
 }
 
 NOT_APPLICABLE = {
